@@ -3588,7 +3588,7 @@ impl Server {
         let sha1 = match &parts[1] {
             RespFrame::BulkString(Some(bytes)) => {
                 match std::str::from_utf8(bytes) {
-                    Ok(s) => s.to_string(),
+                    Ok(s) => s.to_ascii_lowercase(), // the hash is hex text: either case names the same script
                     Err(_) => return Ok(RespFrame::error("ERR invalid SHA1 hash")),
                 }
             }
@@ -3663,7 +3663,7 @@ impl Server {
                     let sha1 = match &parts[i] {
                         RespFrame::BulkString(Some(bytes)) => {
                             match std::str::from_utf8(bytes) {
-                                Ok(s) => s.to_string(),
+                                Ok(s) => s.to_ascii_lowercase(),
                                 Err(_) => {
                                     results.push(RespFrame::Integer(0));
                                     continue;
